@@ -44,7 +44,9 @@ Templates == <<
   [abbr |-> "li*>i+b[title=$#]*3",    items |-> <<E(0,"li",NONE,NONE,""), E(1,"i",NONE,NONE,""), X(E(1,"b",PH,NONE,""), 3)>>,        lo |-> 1, hi |-> 3],
   [abbr |-> "(dt{$#}+dd*2)*",         items |-> <<E(0,"dt",NONE,NONE,PH), X(E(0,"dd",NONE,NONE,""), 2)>>,                         lo |-> 1, hi |-> 2],
   [abbr |-> "ul>li*>br",              items |-> <<E(0,"ul",NONE,NONE,""), E(1,"li",NONE,NONE,""), E(2,"br",NONE,NONE,"")>>,         lo |-> 2, hi |-> 3],   \* deepest last element is a void element
-  [abbr |-> "x>y/",                   items |-> <<E(0,"x",NONE,NONE,""), E(1,"y",NONE,NONE,"")>>,                                  lo |-> 0, hi |-> 0] >>  \* ... carries the self-closing mark
+  [abbr |-> "x>y/",                   items |-> <<E(0,"x",NONE,NONE,""), E(1,"y",NONE,NONE,"")>>,                                  lo |-> 0, hi |-> 0],     \* ... carries the self-closing mark
+  [abbr |-> "ul>li{x${1:y}}*",        items |-> <<E(0,"ul",NONE,NONE,""), E(1,"li",NONE,NONE,"xy")>>,                              lo |-> 2, hi |-> 2],   \* written text ends in a field
+  [abbr |-> "p{q${0}}",               items |-> <<E(0,"p",NONE,NONE,"q")>>,                                                        lo |-> 0, hi |-> 0] >>
 
 VARIABLES tpl, lines
 vars == <<tpl, lines>>
